@@ -180,6 +180,11 @@ def c17_runs(tier):
          pump_run('splice.relay', 4, cv + ['pump.splice-pipe-full'], N=N, B=B, splice=1, relay=1, pipecap=3),
          pump_run('splice.nopipe2', 4, [c for c in noeintr if c != 'pump.buffer-full'], N=N, B=B - 1, splice=1,
                   relay=0, pipecap=4, nopipe2=1, eintr=0)]
+    # two pumps one after the other on the same thread (buffer cache): after errors with data buffered
+    r.append(pump_run('splice.two-pumps', 4, ['pump.second-pump-on-same-thread', 'pump.done', 'pump.output-error'],
+                      N=3, B=3, splice=1, relay=1, pipecap=3, pumps=2, eintr=0, eagain=1))
+    r.append(pump_run('rw.two-pumps', 4, ['pump.second-pump-on-same-thread', 'pump.done'],
+                      N=3, B=3, splice=0, relay=0, pumps=2, eintr=0, eagain=1))
     if not q:
         r.append(pump_run('rw.buf8', 8, ['pump.done', 'pump.buffer-full', 'pump.partial-read'], N=4, B=9, splice=0,
                           relay=1, eintr=0, err=0))
@@ -270,8 +275,11 @@ def c10_runs(tier, hb=0):
                 D=2 if q else 3, hb=hb),
          mt_run('handoff', h, ['signal.exclusive-handoff', 'signal.handler-ran'], preempt=1 if q else 2, I=3, T=1, D=2,
                 ops=1, twosigs=1, nflags=2, order=1, hb=hb),
-         mt_run('fork-child', h, ['signal.child-does-not-trigger-parent', 'env.fork-child-copy-explored'], preempt=1,
-                I=2, T=1, D=1, forkchild=1, hb=hb)]
+         mt_run('fork-child', h, ['signal.child-does-not-trigger-parent', 'env.fork-child-copy-explored',
+                                     'signal.child-registers-own-interest'], preempt=1,
+                I=2, T=1, D=1, forkchild=1, hb=hb),
+         mt_run('fork-child.poll', h, ['signal.child-does-not-trigger-parent', 'signal.child-registers-own-interest'],
+                preempt=0, I=2, T=1, D=1, forkchild=1, poll=1, nflags=4, hb=hb)]
     if not q:
         r.append(mt_run('two-threads.I3', h, cv, preempt=2, I=3, T=2, D=2, hb=hb))
     return r
@@ -297,7 +305,7 @@ def c19_runs(tier):
     h = 'harness/popen.c'
     cv = ['popen.child-reached-exec', 'popen.child-exits-at-once', 'popen.child-dies-from-signal',
           'popen.escalated-to-sigkill', 'popen.child-exits-between-signals', 'popen.complete-run',
-          'env.fork-child-copy-explored', 'popen.time-passes-after-reaping']
+          'env.fork-child-copy-explored', 'popen.time-passes-after-reaping', 'popen.child-continued']
     r = [mt_run('type-r.epoll', h, cv, preempt=0, read=1), mt_run('type-w.epoll', h, cv, preempt=0, read=0),
          mt_run('type-r.poll', h, cv, preempt=0, read=1, poll=1)]
     if tier != 'quick':
